@@ -68,6 +68,10 @@ func CloneFunc(fn func(interface{}) (interface{}, error)) Cloner {
 			return err
 		}
 
+		if err := checkSameMessageType(out, in); err != nil {
+			return err
+		}
+
 		// then shallow-copy into out via reflection
 		src := reflect.Indirect(reflect.ValueOf(in))
 		dest := reflect.Indirect(reflect.ValueOf(out))
@@ -113,6 +117,9 @@ func CopyFunc(fn func(out, in interface{}) error) Cloner {
 // then copy the input to the newly created value.
 func CodecCloner(codec encoding.Codec) Cloner {
 	return CopyFunc(func(out, in interface{}) error {
+		if err := checkSameMessageType(out, in); err != nil {
+			return err
+		}
 		if b, err := codec.Marshal(in); err != nil {
 			return err
 		} else if err := codec.Unmarshal(b, out); err != nil {
@@ -120,6 +127,25 @@ func CodecCloner(codec encoding.Codec) Cloner {
 		}
 		return nil
 	})
+}
+
+// checkSameMessageType returns an error if both values are protobuf messages
+// but of different message types. Neither the Go type (all dynamic messages
+// share one) nor the wire format (which many unrelated messages can parse)
+// reveals such a mismatch.
+func checkSameMessageType(out, in interface{}) error {
+	pmOut, ok := out.(proto.Message)
+	if !ok {
+		return nil
+	}
+	pmIn, ok := in.(proto.Message)
+	if !ok {
+		return nil
+	}
+	if nOut, nIn := proto.MessageName(pmOut), proto.MessageName(pmIn); nOut != nIn {
+		return fmt.Errorf("incompatible message types: %s != %s", nOut, nIn)
+	}
+	return nil
 }
 
 type funcCloner struct {
